@@ -185,11 +185,46 @@ def r11_3(repo: Repo) -> RuleResult:
     return rr
 
 
-RULES = [r11_1, r11_2, r11_3]
+def r11_4(repo: Repo) -> RuleResult:
+    from .. import sym
+
+    rr = RuleResult("R11.4", "prior and posterior cells are addressed from the start of the target row's own slice", floor=2)
+    f = repo.func(COO_FILE, "em_update_matrix")
+    sites = [s_ for s_ in __import__("sa.rules.c10", fromlist=["x"]).searchsorted_sites(repo) if s_[0] is f]
+    if not sites:
+        raise AnalysisError("R11.4: searchsorted site not found in em_update_matrix")
+    _, target, call, arr, key = sites[0]
+    sd = single_defs(f)
+    if arr not in sd or not (isinstance(sd[arr], ast.Subscript) and isinstance(sd[arr].slice, ast.Slice)):
+        raise AnalysisError("R11.4: `%s` is not a slice of the index array" % arr)
+    lo, hi = sd[arr].slice.lower, sd[arr].slice.upper
+    # upper bound must be the next row pointer of the same row
+    if isinstance(lo, ast.Subscript) and isinstance(hi, ast.Subscript) and norm(lo.value) == norm(hi.value) \
+            and sym.sub(sym.poly(hi.slice), sym.poly(lo.slice)) == {(): 1}:
+        rr.ok(f, "row slice", "`%s` = indices[indptr[t] : indptr[t + 1]]" % arr, sd[arr].lineno)
+    else:
+        rr.bad(f, "row slice", "`%s` is not the slice indptr[t] : indptr[t + 1] of one row" % arr, sd[arr].lineno)
+    pos = norm(target)
+    uses = [n for n in walk_no_nested(f.node) if isinstance(n, ast.Subscript) and pos in norm(n.slice) and norm(n.value) != arr and n is not target
+            and norm(n.slice) != pos]
+    if not uses:
+        raise AnalysisError("R11.4: no data access through the searchsorted position found")
+    for u in uses:
+        off = sym.sub(sym.poly(u.slice), sym.poly(ast.parse(pos, mode="eval").body))
+        construct = "%s[%s]" % (norm(u.value), short(u.slice, 50))
+        if off == sym.poly(lo):
+            rr.ok(f, construct, "offset `%s` is the start of the row's slice" % norm(lo), u.lineno)
+        else:
+            rr.bad(f, construct, "the cell is addressed at `%s` + position, but the position was found in the slice starting at `%s`: "
+                   "mass is read from / credited to another row" % (sym.show(off), norm(lo)), u.lineno)
+    return rr
+
+
+RULES = [r11_1, r11_2, r11_3, r11_4]
 CLAIM = (
     "R11.1 the posterior look-up position from np.searchsorted is range-guarded so it stays inside the target row's slice; "
     "R11.2 the normalise -> threshold -> eliminate_zeros sequence is present, in this order, under `n_iter > 0 or epsilon > 0` "
     "and after every EM update; R11.3 build and EM kernels of each of the four vectorizers construct windows, mix-weighted "
-    "kernels and row ids identically (fact sets, dtype keywords excluded)."
+    "kernels and row ids identically (fact sets, dtype keywords excluded); R11.4 prior / posterior cells are addressed at slice start + position for the very slice that was searched (symbolic)."
 )
 NOT_DECIDED = "equality with the documented EM procedure as a numerical statement (column sums, [0,1] range, support monotonicity as values)."
